@@ -138,6 +138,17 @@ static int on_wkey(TickitWindow *w, TickitEventFlags fl, void *info, void *data)
   h->depth--;
   return h->ret;
 }
+/* the window whose DESTROY handlers are running (innermost), or -1 */
+static int dying_win = -1;
+static int on_wdestroy_calls(TickitWindow *w, TickitEventFlags fl, void *info, void *data)
+{
+  if(!(fl & TICKIT_EV_DESTROY)) return 0;
+  int was = dying_win;
+  dying_win = widx(w);
+  int r = on_wkey(w, fl, info, data);
+  dying_win = was;
+  return r;
+}
 static int on_wmouse(TickitWindow *w, TickitEventFlags fl, void *_info, void *data)
 {
   struct hdata *h = data;
@@ -178,7 +189,10 @@ static void trace_op(const char *op)
   int at = sh->trlen;
   if(at + n + 2 >= sizeof sh->trace) return;
   if(at) sh->trace[at++] = ',';
-  memcpy((char *)sh->trace + at, op, n); at += n;
+  memcpy((char *)sh->trace + at, op, n);
+  /* the pen calls are all "a call that reads these windows" to the discipline: one spelling in the trace */
+  if(op[0] == 'z' || op[0] == 'P') ((char *)sh->trace)[at] = 'q';
+  at += n;
   sh->trace[at] = 0;
   sh->trlen = at;
 }
@@ -186,7 +200,12 @@ static void trace_op(const char *op)
 static void w_op(const char *op, int depth)
 {
   const char *s = op + 1;
-  if(op[0] == 'b') { char t[24]; size_t n = strcspn(op, "."); if(n > 20) n = 20; memcpy(t, op, n); t[n] = 0; trace_op(t); }
+  /* a DESTROY handler is handed its window: what it does WITH THAT WINDOW (other than touching its reference count,
+   * closing it or creating windows below it) is covered by the handler's contract, not by a reference of the client's:
+   * such calls are made but are not part of the trace that the discipline judges */
+  int own = dying_win >= 0 && strchr("shtxgyqzPpNS", op[0]) && atoi(op + 1) == dying_win;
+  if(own) ;
+  else if(op[0] == 'b') { char t[24]; size_t n = strcspn(op, "."); if(n > 20) n = 20; memcpy(t, op, n); t[n] = 0; trace_op(t); }
   else if(op[0] != '-') trace_op(op);
   switch(op[0]) {
     case 'n': { int p = p_int(&s), f = p_int(&s);
@@ -213,7 +232,7 @@ static void w_op(const char *op, int depth)
         case 'r': w_emit_mouse(TICKIT_MOUSEEV_RELEASE); break;
         case 'w': w_emit_mouse(TICKIT_MOUSEEV_WHEEL); break;
       } break;
-    case 'b': {   /* b<i>.<k|m>.<maskhex>.<ret>.<actions> */
+    case 'b': {   /* b<i>.<k|m|e|f|g|d>.<maskhex>.<ret>.<actions> */
       int i = p_int(&s);
       struct hdata *h = malloc(sizeof *h);
       h->kind = *s++; if(*s == '.') s++;
@@ -222,9 +241,19 @@ static void w_op(const char *op, int depth)
       h->actions = strdup(s); h->depth = 0;
       if(nHD >= 256) { printf("ERR too-many-handlers\n"); fflush(stdout); _exit(0); }
       HD[nHD++] = h;      /* handlers are numbered in the order they are bound */
-      if(h->kind == 'k') h->cid = tickit_window_bind_event(W[i], TICKIT_WINDOW_ON_KEY, 0, &on_wkey, h);
-      else               h->cid = tickit_window_bind_event(W[i], TICKIT_WINDOW_ON_MOUSE, 0, &on_wmouse, h);
+      switch(h->kind) {
+        case 'k': h->cid = tickit_window_bind_event(W[i], TICKIT_WINDOW_ON_KEY, 0, &on_wkey, h); break;
+        case 'm': h->cid = tickit_window_bind_event(W[i], TICKIT_WINDOW_ON_MOUSE, 0, &on_wmouse, h); break;
+        /* the other dispatching kinds: every bound handler of the kind runs, the return value is not looked at */
+        case 'e': h->cid = tickit_window_bind_event(W[i], TICKIT_WINDOW_ON_EXPOSE, 0, &on_wkey, h); break;
+        case 'f': h->cid = tickit_window_bind_event(W[i], TICKIT_WINDOW_ON_FOCUS, 0, &on_wkey, h); break;
+        case 'g': h->cid = tickit_window_bind_event(W[i], TICKIT_WINDOW_ON_GEOMCHANGE, 0, &on_wkey, h); break;
+        /* DESTROY handlers that make calls are not modelled: such cases are judged by the discipline on the trace only */
+        case 'd': h->cid = tickit_window_bind_event(W[i], TICKIT_WINDOW_ON_DESTROY, 0, &on_wdestroy_calls, h); break;
+        default: printf("ERR handler-kind %s\n", op); fflush(stdout); _exit(0);
+      }
       break; }
+    case 'N': { int i = p_int(&s), v = p_int(&s); tickit_window_set_focus_child_notify(W[i], v); break; }
     case 'U': { int i = p_int(&s), n = p_int(&s);   /* unbind handler number n (bound on window i) */
       if(n < 0 || n >= nHD) { printf("ERR no-such-handler\n"); fflush(stdout); _exit(0); }
       tickit_window_unbind_event_id(W[i], HD[n]->cid); break; }
@@ -232,6 +261,27 @@ static void w_op(const char *op, int depth)
       TickitRect r = tickit_window_get_geometry(W[i]);
       r.lines = r.lines == 4 ? 3 : 4;
       tickit_window_set_geometry(W[i], r); break; }
+    case 'p': { int i = p_int(&s);                  /* tickit_window_reposition: one line up while the GEOMCHANGE handlers run */
+      TickitWindow *w = W[i];
+      tickit_window_reposition(w, -1, 0);
+      if(!wdead[i]) w->rect.top = 0;                /* back in place without a second event */
+      break; }
+    case 'Z': {                                     /* the terminal grows by one line: on_term_resize resizes the root */
+      int lines, cols; tickit_term_get_size(wterm, &lines, &cols);
+      tickit_mockterm_resize((TickitMockTerm *)wterm, lines + 1, cols);
+      if(!wdead[0]) tickit_window_expose(W[0], NULL);   /* ... and everything is redrawn: the damage stays one rectangle */
+      break; }
+    /* window pens: the window holds a reference on its pen; set_pen with the pen it already has, with another
+     * window's pen, with NULL, with a fresh pen; scrollrect with a pen argument */
+    case 'q': { int i = p_int(&s); tickit_window_set_pen(W[i], tickit_window_get_pen(W[i])); break; }
+    case 'Q': { int i = p_int(&s), j = p_int(&s); tickit_window_set_pen(W[i], tickit_window_get_pen(W[j])); break; }
+    case 'z': { int i = p_int(&s); tickit_window_set_pen(W[i], NULL); break; }
+    case 'P': { int i = p_int(&s);
+      TickitPen *pen = tickit_pen_new_attrs(TICKIT_PEN_FG, 2, TICKIT_PEN_BOLD, 1, 0);
+      tickit_window_set_pen(W[i], pen); tickit_pen_unref(pen); break; }
+    case 'o': { int i = p_int(&s), j = p_int(&s);
+      TickitRect r = { .top = 0, .left = 0, .lines = 2, .cols = 8 };   /* full width: the damage stays one rectangle */
+      tickit_window_scrollrect(W[i], &r, 1, 0, tickit_window_get_pen(W[j])); break; }
     case '-': break;   /* no-op */
     default: printf("ERR op %s\n", op); fflush(stdout); _exit(0);
   }
